@@ -41,6 +41,7 @@ THEOREMS = [
     'Uwg.StepProps.step_offseason_formula', 'Uwg.StepProps.step_offseason_bare_normal',
     'Uwg.StepProps.step_offseason_bare', 'Uwg.StepProps.step_hvac_never_both',
     'Uwg.StepProps.step_blds_length', 'Uwg.StepProps.step_zero_load_defined',
+    'Uwg.StepProps.step_schedule_lookups',
 ]
 
 PARAM = 'resources/initialize_singapore.uwg'
